@@ -5,3 +5,14 @@ package catalog
 func VerifTagName(title string) string { return string(tagName(title)) }
 
 func VerifPathTagTitle(path string) string { return pathTagTitle(path) }
+
+// VerifHTTPInteractionID builds an interaction key for the collection checks.
+func VerifHTTPInteractionID(path string) InteractionID {
+	return HTTPInteractionID{protocol: HTTP, path: Path(path), method: GET}
+}
+
+// VerifHTTPInteraction builds a minimal interaction whose annotation carries a counter.
+func VerifHTTPInteraction(path string, annotation string) Interaction {
+	id := HTTPInteractionID{protocol: HTTP, path: Path(path), method: GET}
+	return newHTTPInteraction(id, annotation)
+}
